@@ -550,7 +550,7 @@ func ruleCMapDest(c *eng.Ctx) {
 		// longer destinations must reach the multi-unit decoder (directly or through a helper that does)
 		multi := viaUnicode
 		for _, ci := range eng.Calls(fn, false, func(string, ssa.CallInstruction) bool { return true }) {
-			if cal := ci.Common().StaticCallee(); cal != nil && eng.InModule(cal) && cal != fn {
+			if cal := eng.StaticCallee(ci); cal != nil && eng.InModule(cal) && cal != fn {
 				if len(eng.CallsNamed(cal, false, "font.hexToUnicode")) > 0 {
 					multi = true
 				}
